@@ -351,6 +351,11 @@ func RuleListen(r *Report, p *Program) {
 				}
 			}
 			paths := w.Walk(cf, nil, binds)
+			if os.Getenv("UHLINT_DEBUG") != "" {
+				for _, pa := range paths {
+					fmt.Println("CONSUMER:", pa.Outcome, pa.Detail, pa.State.Describe())
+				}
+			}
 			bad := ""
 			sigs := map[string]bool{}
 			nEnd := 0
